@@ -876,10 +876,32 @@ def mode_switch(ctx, mod, rule):
         if all({x.id for x in ast.walk(t) if isinstance(x, ast.Name)} <=
                {par, 'self'} for t, _ in gs):
             ok = True
+    # ... and "really changes" compares the new value with the mode as it
+    # was: nothing that stores `_layered` (the options helper does) may run
+    # on a path before the comparison
+    if ok:
+        from ..core.cfg import CFG as _CFG
+        cfg = _CFG(st)
+        setters_ = set()
+        for n_ in cfg.nodes:
+            if n_.ast is None or n_.kind != 'stmt':
+                continue
+            txt_ = ast.unparse(n_.ast)
+            if 'self._layered =' in txt_ or any(
+                    ast.unparse(c_.func) == 'self._set_layered_opts'
+                    for c_ in ast.walk(n_.ast) if isinstance(c_, ast.Call)):
+                setters_.add(n_)
+        tests_ = [n_ for n_ in cfg.nodes if n_.kind == 'test' and
+                  '_layered' in ast.unparse(n_.ast)]
+        for t_ in tests_:
+            for s_ in setters_:
+                if t_ in cfg.reachable_between(s_, t_):
+                    ok = False
     ctx.check(rule, 'Simulation.layered setter drops the computed state',
               ok, 'the mode is switched while synthetic data, misfit, '
-              'gradient and the computed flag of the other mode stay',
-              ctx.where(mod, st))
+              'gradient and the computed flag of the other mode stay (no '
+              'clean(), or the test "does the mode change" runs after the '
+              'new mode was already stored)', ctx.where(mod, st))
 
 
 def rule_OW8_shared_survey(ctx, mod, E):
